@@ -494,7 +494,9 @@ func (b *Broker) SetSuccessThreshold(t EventType, successThreshold int) error {
 		b.graphs[t] = g
 	}
 
+	g.thresholdLock.Lock()
 	g.successThreshold = successThreshold
+	g.thresholdLock.Unlock()
 	return nil
 }
 
@@ -518,7 +520,9 @@ func (b *Broker) SetSuccessThresholdSinks(t EventType, successThresholdSinks int
 		b.graphs[t] = g
 	}
 
+	g.thresholdLock.Lock()
 	g.successThresholdSinks = successThresholdSinks
+	g.thresholdLock.Unlock()
 	return nil
 }
 
@@ -535,7 +539,8 @@ func (b *Broker) SuccessThreshold(t EventType) (int, bool) {
 
 	g, ok := b.graphs[t]
 	if ok {
-		return g.successThreshold, true
+		successThreshold, _ := g.thresholds()
+		return successThreshold, true
 	}
 
 	return 0, false
@@ -553,7 +558,8 @@ func (b *Broker) SuccessThresholdSinks(t EventType) (int, bool) {
 
 	g, ok := b.graphs[t]
 	if ok {
-		return g.successThresholdSinks, true
+		_, successThresholdSinks := g.thresholds()
+		return successThresholdSinks, true
 	}
 
 	return 0, false
